@@ -17,6 +17,11 @@ THEOREMS = [
     "TornadoModel.C28.quotePlus_encoded",
     "TornadoModel.C28.login_redirect_is_login_url",
     "TornadoModel.C28.sameSite_not_offsite",
+    "TornadoModel.C28.sameSite_iff_onSameHost",
+    "TornadoModel.C28.sameSite_tab_refuted",
+    "TornadoModel.C28.handleDeco_slash_on_same_host",
+    "TornadoModel.C28.static_handle_on_same_host",
+    "TornadoModel.C28.onSameHost_not_offsite",
 ]
 TRUSTED = [
     "routing through `(.*)`, `/(.*)`, `/*(.*)`, `<prefix>(.*)` is modelled as the captured group (C26.capture); argument decoding as in C26",
@@ -24,21 +29,29 @@ TRUSTED = [
     "the static directory redirect is the C26 model (posixpath, fixture tree as filesystem parameter)",
 ]
 ASSUMPTIONS = [
-    "request targets are latin-1 text without whitespace/control characters (what the request-line grammar admits), up to a few hundred characters",
+    "request targets are latin-1 text of up to a few hundred characters (the request-line grammar `[\\x21-\\x7e\\x80-\\xff]+` is modelled: "
+    "targets with whitespace/control characters answer 400 and are generated too)",
     "the wrapped method does not redirect itself; login_url is configuration, not request data",
     "`\\` directly after the leading `/` counts as off-site (browsers treat it like `/`), as does a target without a leading `/`",
+    "Spec.onSameHost (the oracle's yardstick) is a hand-written reading of the WHATWG URL parser's first steps for a Location resolved "
+    "against an http(s) page: strip leading C0/space, drop tab/LF/CR, `scheme:` prefix, two leading slash-or-backslash characters",
 ]
 RULE = ("request targets built from leading '/', '//', '/\\\\', '\\\\\\\\', '%2f', scheme and host-like segments, dot segments, trailing slashes and "
         "queries, sent as GET/HEAD/POST through catch-all patterns to handlers decorated with removeslash/addslash/authenticated and to a "
         "StaticFileHandler with default_filename; non-trivial = the response is a redirect or a refusal caused by the redirect guard; distinct by canonical JSON")
 EXHAUSTIVE = {"quick": False, "thorough": False}
 CLAUSE_CAVEATS = [
-    "Spec.sameSite is the predicate the code's guard computes (sameSitePath_eq is rfl): the theorems say a redirect is issued only after that guard; that the guard characterises 'a path on the same host' rests on its definition (no scheme, single leading slash not followed by slash or backslash)",
+    "Spec.onSameHost is defined without reference to the guard, but it is a transcription of the URL standard made for this check, not a "
+    "verified browser model; the guard equals it only on text without whitespace/control characters (sameSite_iff_onSameHost; "
+    "sameSite_tab_refuted shows `/<TAB>/host` passes the guard) — the run-level theorems get that side condition from the request-line grammar",
 ]
 CLAUSES = {
-    "removeslash/addslash Location is a path on the same host": "slash_redirect_same_site + handleDeco_slash_same_site (whole request through any catch-all pattern)",
-    "static-directory redirect Location is a path on the same host": "static_redirect_same_site + static_handle_redirect_same_site (every config, path, filesystem)",
-    "never scheme-qualified or protocol-relative": "sameSite_not_offsite (what Spec.sameSite excludes)",
+    "removeslash/addslash Location is a path on the same host": "handleDeco_slash_on_same_host (whole request through any catch-all pattern: Spec.onSameHost of the Location, "
+        "no side condition) via slash_redirect_same_site + handleDeco_slash_same_site (redirect only after the guard) + sameSite_iff_onSameHost",
+    "static-directory redirect Location is a path on the same host": "static_handle_on_same_host (every config, target, filesystem) via static_redirect_same_site + "
+        "static_handle_redirect_same_site + sameSite_iff_onSameHost",
+    "never scheme-qualified or protocol-relative": "onSameHost_not_offsite (no `scheme:` prefix, not two leading slash-or-backslash characters, after the "
+        "browser's whitespace stripping) + sameSite_not_offsite",
     "authenticated redirects only to the configured login URL": "login_redirect_is_login_url + quotePlus_encoded (request text below U+0800: only unreserved/%/+ characters after ?next=)",
 }
 PARALLEL = True
@@ -95,6 +108,9 @@ QUERY = ["", "", "", "?", "?q=1", "?next=//evil.example", "?//evil.example/", "?
 LOGIN = ["/login", "/login", "/login?x=1", "https://auth.example/login", "//auth.example/l", "/l?next=", "login", "/log in".replace(" ", "%20"), "HTTPS://A/", "http:x"]
 
 
+CTRL = ["\t", " ", "\x00", "\x0b", "\x0c", "\x1f", "\x7f", "\r", "\n", "\x1c", "\x85", "\xa0"]
+
+
 def _target(rng):
     k = rng.random()
     if k < 0.1:
@@ -111,6 +127,9 @@ def _target(rng):
     t += rng.choice(TRAIL)
     t += rng.choice(QUERY)
     t = "".join(ch for ch in t if ch not in " \t\r\n")
+    if rng.random() < 0.06:      # whitespace / control characters: the request line is malformed (400), whatever the handler
+        i = rng.choice([0, 1, 1, 2, rng.randrange(len(t) + 1)])
+        t = t[:i] + rng.choice(CTRL) + t[i:]
     return t or "/"
 
 
@@ -268,7 +287,7 @@ def spec_requests(case, impl):
         return []
     if case["kind"] == "auth":
         return [line(ID, "loginOk", case["login"], impl["location"])]
-    return [line(ID, "sameSite", impl["location"])]
+    return [line(ID, "onSameHost", impl["location"])]
 
 
 def spec_violation(case, impl, replies):
